@@ -260,10 +260,24 @@ def term_str(t):
     return k
 
 
+class _All:
+    def __contains__(self, x):
+        return True
+
+
+ALL = _All()
+
+
 class Crate:
-    def __init__(self, path):
+    def __init__(self, path, normalize=True):
         with open(path) as f:
             j = json.load(f)
+        self.norm = None
+        if normalize:
+            from . import normalize as N
+            # helpers unknown to the reviewed tree are spliced into their callers (hypercore
+            # only: the control crate is analysed as written); bool jump threading everywhere
+            self.norm = N.normalize(j, known=None if j["crate"] == "hypercore" else ALL)
         self.j = j
         self.name = j["crate"]
         self.features = j["cfg_features"]
